@@ -1199,4 +1199,31 @@ theorem process_repeatedly (σ : Leaves) (h0 : sq0.payload 0 = none) (t : Rel) (
         exact ⟨it, s'', a, by rw [bb, P.sem_eq]⟩
       · exact process_repeatedly σ h0 t fuel hm hsql hf rest s' reg' (T.after hext P) hr x hx
 
+/-- **Write-once over any number of `process` calls**: whatever payload any node held before the first call it still
+holds - the same object - after every later call; payloads are only ever added on Materializations of the input tree
+or on nodes the Processor created since the first call; the database-side state is never touched. -/
+theorem process_repeatedly_write_once (σ : Leaves) (h0 : sq0.payload 0 = none) (t : Rel) (fuel : Nat) (hm : t.MultiIter)
+    (hsql : t.SqlSrcOK σ sq0) (hf : t.size ≤ fuel) :
+    (runs : List (Res × ProcState)) → (s : ProcState) → (reg : Nat → Option (List Row)) → TreeInv σ reg sq0 t s →
+    ProcRuns σ fuel t s runs →
+    ∀ x, x ∈ runs → PayKeep s.st x.2.st ∧ PayNewP t s.nextTemp s.st x.2.st ∧ x.2.sq = s.sq ∧ s.nextTemp ≤ x.2.nextTemp
+  | [], _, _, _, _, x, hx => by cases hx
+  | (res, s') :: rest, s, reg, T, hruns, x, hx => by
+    cases hruns with
+    | cons h hr =>
+      rename_i b
+      obtain ⟨reg', hext, P⟩ := process_multi_iter σ h0 t fuel none s reg hm hsql T hf res b s' h
+      have hsq : s'.sq = s.sq := P.inv.sq.trans T.sq.symm
+      rcases List.mem_cons.mp hx with hx | hx
+      · subst hx
+        exact ⟨P.keep, P.newp, hsq, P.temp⟩
+      · obtain ⟨k, n, q, tt⟩ :=
+          process_repeatedly_write_once σ h0 t fuel hm hsql hf rest s' reg' (T.after hext P) hr x hx
+        refine ⟨P.keep.trans k, ?_, q.trans hsq, Nat.le_trans P.temp tt⟩
+        intro o ho
+        rcases n o ho with h1 | h1 | h1
+        · exact P.newp o h1
+        · exact Or.inr (Or.inl h1)
+        · exact Or.inr (Or.inr (Nat.le_trans P.temp h1))
+
 end DafRel
